@@ -280,6 +280,130 @@ def scenario(desc, spec, how, prefill, invalidate_idx):
     return problems
 
 
+# ---------------------------------------------------------------- consumers of distinct views are distinct tasks
+HASH_WORLD = {
+    'results': [{'pos': [[3, 5], [8, 9]], 'neg': [[-3, -5], [-8, -9]], 'pairs': ((1, 2), (10, 20), (100, 200)),
+                 0: [[7, 8], [9, 10]], 1: [[70, 80], [90, 100]]},
+                ((1, 2), (10, 20), (100, 200)), 1, 0],
+    'stored': [True, True, True, True],
+    'maps': [{'xs': [0, 1, 2, 3, 4, 5], 'bs': 2, 'stored': [True, True, True]}],
+}
+
+
+def gen_sibling_group(rng):
+    """derived objects over ONE root task with the SAME last operation and different paths above it, plus
+    the same expression written again / in an equivalent form"""
+    def idx(b, v):
+        return ('getitem', b, ('val', v))
+    if rng.random() < 0.65:
+        root = ('task', 0)
+        firsts = [lambda b, k=k: idx(b, k) for k in ('pos', 'neg', 0, 1)]
+        seconds = [lambda b, j=j: idx(b, j) for j in (0, 1, -1)] + [lambda b: ('iteratetask', b, 2, 1), lambda b: ('return_tuple', b, 2, 0)]
+        paths = []
+        for f in rng.sample(firsts, rng.randint(2, 4)):
+            if rng.random() < 0.6:
+                paths.append(lambda b, f=f, g=rng.choice(seconds): g(f(b)))
+            else:
+                paths.append(f)
+        if rng.random() < 0.4:
+            paths.append(lambda b, j=rng.randrange(3): idx(idx(b, 'pairs'), j))
+    else:
+        root = ('task', 1)
+        paths = [lambda b, j=j: idx(b, j) for j in rng.sample([0, 1, 2, -1, -2], rng.randint(2, 4))]
+        if rng.random() < 0.5:
+            paths.append(lambda b, j=rng.randrange(3): ('iteratetask', b, 3, j))
+        if rng.random() < 0.5:
+            paths.append(lambda b, j=rng.randrange(3): ('return_tuple', b, 3, j))
+    last = rng.choice([lambda b: idx(b, 0), lambda b: idx(b, 1), lambda b: idx(b, -1), lambda b: idx(b, slice(0, 1)),
+                       lambda b: ('fun', b, 'wrap'), lambda b: ('fun', b, ('getcheck', 0, 2)), lambda b: ('return_tuple', b, 2, 1),
+                       lambda b: ('iteratetask', b, 2, 0), lambda b: ('getitem', b, ('task', 2)), lambda b: ('getitem', b, ('task', 3)),
+                       lambda b: ('custom', idx(b, 0)), lambda b: ('getitem', b, ('getitem', ('task', 1), ('val', 0)))])
+    specs = [last(p(root)) for p in paths]
+    extra = rng.random()
+    if extra < 0.35:
+        specs.append(read_back(specs[0]))                       # the same expression built again
+    elif extra < 0.55:
+        taskish = [x for x in specs if x[0] in ('getitem', 'iteratetask', 'fun', 'return_tuple')]
+        if taskish:
+            specs.append(('identity', rng.choice(taskish)))       # identity(tasklet) is that tasklet
+    elif extra < 0.7:
+        specs += [('mapslice', 0, [(0, 4, None)]), ('mapslice', 0, [(None, 4, 1)]), ('mapslice', 0, [(0, 4, 2)]),
+                  ('mapelem', 0, [], 1), ('mapelem', 0, [], 3), ('mapelem', 0, [(1, None, None)], 0)]
+    rng.shuffle(specs)
+    return specs
+
+
+def read_back(spec):
+    return depsgen.read_spec(depsgen.pyrepr(spec))
+
+
+def hash_pairs(w, specs, how):
+    """-> (problems, hashes, canons): consumers of structurally different derived objects must have different
+    hashes, consumers of the same expression the same hash (specs outside the fragment are left out)"""
+    problems = []
+    items = []
+    for sp in specs:
+        cn = w.canon_spec(sp)
+        if cn is None:
+            continue
+        c = depsgen.consumer_task(w.realise(sp), how)
+        items.append((sp, cn, c.hash()))
+    for a in range(len(items)):
+        for b in range(a + 1, len(items)):
+            (s1, c1, h1), (s2, c2, h2) = items[a], items[b]
+            if c1 != c2 and h1 == h2:
+                problems.append(('consumers of two different derived objects have the same hash (one of them would never run and get the other\'s result)',
+                                 {'spec_a': depsgen.pyrepr(s1), 'spec_b': depsgen.pyrepr(s2), 'hash': hx(h1)}))
+            if c1 == c2 and h1 != h2:
+                problems.append(('the same derived expression built twice gives its consumers different hashes',
+                                 {'spec_a': depsgen.pyrepr(s1), 'spec_b': depsgen.pyrepr(s2)}))
+    return problems, items
+
+
+def hash_group(desc, specs, how, execute=True):
+    """hash oracle on a group of derived objects + (execute) a real `jug execute` of all their consumers on a
+    dict store: every consumer has its OWN result = f(reference value of its own argument), one entry per
+    distinct consumer."""
+    w = depsgen.World(None, desc=desc, dump=False)
+    problems, items = hash_pairs(w, specs, how)
+    if not execute or not items:
+        return problems
+    with jugrun.scratch_dir('c16h') as d:
+        jf = os.path.join(d, MODNAME + '.py')
+        sp = os.path.join(d, 'store.pkl')
+        depsgen.write_jugfile_group(jf, desc, [s for s, _, _ in items], how)
+        code, out, err = call_main(['execute', jf, '--jugdir', 'dict_store:' + sp] + EXEC_FLAGS + ['--nr-wait-cycles', '2'])
+        w = depsgen.World(None, desc=desc, dump=False)
+        objs = [w.realise(s) for s, _, _ in items]
+        for t in w.all_tasks():
+            w._stored[t.hash()] = True
+        keys = store_keys(sp)
+        st = dict_store(sp)
+        expected_keys = set()
+        for (s_, cn, h) in items:
+            ref, reads, oom = w.reference(s_)
+            if ref[0] != 'ok':
+                continue
+            expected_keys.add(h)
+            a = depsgen.canon(ref[1])
+            exp = {'pos': ('consumed', (a,), []), 'kw': ('consumed', (), [('k', a)]), 'nested': ('consumed', (1, [a, {'x': (a,)}]), [])}[how]
+            if h not in keys:
+                problems.append(('a consumer of a derived object has no result of its own after jug execute', {'spec_a': depsgen.pyrepr(s_), 'exit': repr(code), 'log': err[-400:]}))
+            else:
+                got = st.load(h)
+                if repr(got) != repr(exp):
+                    problems.append(('the stored result of a consumer is not its function applied to ITS OWN argument',
+                                     {'spec_a': depsgen.pyrepr(s_), 'observed': repr(got), 'expected': repr(exp)}))
+        st.backend = None
+        consumer_keys = keys - set(t.hash() for t in w.all_tasks())
+        if not consumer_keys <= set(h for _, _, h in items):
+            problems.append(('store contains a key that is not a task (a derived object was stored)', {'keys': sorted(hx(k) for k in consumer_keys - set(h for _, _, h in items))}))
+        ndistinct = len(set(cn for (s_, cn, h) in items if h in expected_keys))
+        if len(consumer_keys & expected_keys) != ndistinct:
+            problems.append(('the store does not hold one result per distinct consumer', {'entries': len(consumer_keys & expected_keys), 'distinct_consumers': ndistinct}))
+    return problems
+
+
 def gen_scenario(ck, w, spec):
     rng = ck.rng
     ntasks = len(w.all_tasks())
@@ -442,9 +566,10 @@ def run(ck):
                       'the kind of exception an operation raises is not compared (any exception other than the missing-result assertion = Raised)']
     nworlds = ck.n(300, 4000)
     per = 10
-    nscen = ck.n(150, 2500)
+    nscen = ck.n(120, 2500)
     col = Collector(ck)
     scen_pool = []
+    hash_pool = []
     # ---- exhaustive: every structure of <= 3 (quick) / 4 (thorough) nodes, in worlds with different results missing
     specs = enum_specs(ck.n(3, 4))
     for desc in SUB_WORLDS:
@@ -466,15 +591,20 @@ def run(ck):
     for wi in range(nworlds):
         w = depsgen.World(ck.rng, nbase=4, nmaps=1, stored_prob=ck.rng.choice([1.0, 0.85, 0.6]))
         cache = {}
+        group = []
         for k in range(per):
             spec = w.gen_spec(3)
             how = ck.rng.choice(['pos', 'pos', 'pos', 'kw', 'nested'])
             nontriv, added = col.case(w, spec, how, cache, 'spec')
+            if w.canon_spec(spec) is not None:
+                group.append(spec)
             # (a container subclass holding Task objects is hashed by pickling them: not a usable jugfile argument)
             if nontriv and "'subopaque'" not in repr(spec) and len(scen_pool) < 4 * nscen and ck.rng.random() < 0.5:
                 scen_pool.append((w.desc, spec))
         # ---- derived objects are never stored themselves
         check_store_keys(ck, w)
+        if len(group) >= 2:
+            hash_pool.append((w.desc, group))
     cases, meta = col.cases, col.meta
     if meta:
         ck.sample({k: meta[len(meta) // 2][k] for k in ('arg', 'store', 'observed', 'deps')})
@@ -493,6 +623,32 @@ def run(ck):
             ck.violation(dict({'kind': 'impl-violation', 'what': what, 'world': depsgen.pyrepr(desc), 'spec': depsgen.pyrepr(spec), 'how': how,
                                'scenario': {'prefill': prefill, 'invalidate': inv}}, **details))
     ck.count('scenarios(execute+invalidate)', len(scen_pool[:nscen]))
+    # ---- consumers of distinct views are distinct tasks: sibling groups (hash oracle + real execute) ...
+    for gi in range(ck.n(24, 600)):
+        specs = gen_sibling_group(ck.rng)
+        how = ck.rng.choice(['pos', 'pos', 'kw', 'nested'])
+        ck.count('hash-group:size', len(specs))
+        try:
+            problems = hash_group(HASH_WORLD, specs, how, execute=True)
+        except Exception as e:
+            problems = [('the consumer-hash scenario crashed: %s' % type(e).__name__, {'error': repr(e)})]
+        for what, details in problems:
+            ck.violation(dict({'kind': 'impl-violation', 'what': what, 'world': depsgen.pyrepr(HASH_WORLD), 'how': how,
+                               'hash_group': depsgen.pyrepr(specs)}, **details))
+    ck.count('hash-groups(execute)', ck.n(24, 600))
+    # ... and random pairs (hash oracle only)
+    npairs = 0
+    for desc, group in hash_pool:
+        w = depsgen.World(None, desc=desc, dump=False)
+        try:
+            problems, items = hash_pairs(w, group, 'pos')
+        except Exception as e:
+            problems, items = [('the consumer-hash oracle crashed: %s' % type(e).__name__, {'error': repr(e)})], []
+        npairs += len(items) * (len(items) - 1) // 2
+        for what, details in problems:
+            ck.violation(dict({'kind': 'impl-violation', 'what': what, 'world': depsgen.pyrepr(desc), 'how': 'pos',
+                               'hash_group': depsgen.pyrepr(group), 'hash_only': True}, **details))
+    ck.count('hash-pairs(random)', npairs)
     jugrun.fresh()
     preamble = '''
 Definition run_case (c : list (tid * val) * arg * res val * list tid) : bool :=
@@ -508,6 +664,15 @@ Definition run_case (c : list (tid * val) * arg * res val * list tid) : bool :=
 def replay(obj):
     """Re-execute a recorded case against the repository under test: all direct oracles (and the
     execute/invalidate scenario when the replay has one).  Returns 1 when the real code misbehaves."""
+    if 'hash_group' in obj:
+        problems = hash_group(depsgen.read_spec(obj['world']), depsgen.read_spec(obj['hash_group']), obj.get('how', 'pos'),
+                              execute=not obj.get('hash_only'))
+        for what, details in problems:
+            print('VIOLATED:', what, details)
+        if not problems:
+            print('consumer hashes and stored results are as expected on this group')
+        jugrun.fresh()
+        return 1 if problems else 0
     if 'world' not in obj or 'spec' not in obj:
         print('replay: nothing to re-execute in this file:', obj.get('no_longer_checks', obj))
         return 2
